@@ -774,6 +774,9 @@ class Interp:
 
     def st_For(self, run, st, env):
         itv = self.eval(run, st.iter, env)
+        from . import hof
+        if (hof.is_hof(itv, "itertools.repeat") and len(hof.parts(itv)[1]) == 1) or hof.is_hof(itv, "iter-call"):
+            return self._for_unbounded(run, st, env, itv)
         items = self.iterate(run, itv, st)
         broke = False
         hook = self.cfg.loop_hook
@@ -794,6 +797,35 @@ class Interp:
             if hook is not None:
                 hook(run, st, env, n_it, "done")
             self.exec_block(run, st.orelse, env)
+
+    def _for_unbounded(self, run, st, env, itv):
+        """for x in itertools.repeat(v) / iter(callable, sentinel): a loop without a bound of its own, treated like `while`"""
+        from . import hof
+        single = env.func in self.cfg.single_iteration and self._is_outer_loop(st, env)
+        it = 0
+        while True:
+            if hof.is_hof(itv, "iter-call"):
+                fn, sentinel = hof.parts(itv)[1]
+                v = self.call(run, fn, [], {}, st)
+                if self.tf.identical(self, run, v, sentinel, st):
+                    self.exec_block(run, st.orelse, env)
+                    return
+            else:
+                v = hof.parts(itv)[1][0]
+            if it >= self.cfg.loop_unroll and not single:
+                raise CutoffSig(f"unbounded for loop unrolled {it} times at {self.locof(st)}")
+            if self.cfg.mark_loops:
+                run.effect("loop.iter", (C(it),), node=st)
+            self.assign(run, st.target, v, env)
+            try:
+                self.exec_block(run, st.body, env)
+            except BreakSig:
+                return
+            except ContinueSig:
+                pass
+            it += 1
+            if single:
+                raise BackedgeSig()
 
     def iterate(self, run, itv: Value, node):
         """Generator of the abstract elements of an iterable."""
@@ -823,6 +855,12 @@ class Interp:
             for x in itv.v:
                 yield C(x)
             return
+        if isinstance(itv, App) and itv.op == "hof" and itv.args[0].v == "itertools.repeat" and len(itv.args[1].items) == 2:
+            n = self.resolve(run, itv.args[1].items[1])
+            if isinstance(n, C) and isinstance(n.v, int):
+                for _ in range(n.v):
+                    yield itv.args[1].items[0]
+                return
         if isinstance(itv, App) and itv.op == "filter_none":
             for x in self.iterate(run, itv.args[0], node):
                 if self.truth(run, x, node):
@@ -846,30 +884,79 @@ class Interp:
     def st_Continue(self, run, st, env):
         raise ContinueSig()
 
+    def enter_cm(self, run, cm, node):
+        """acquire a context manager (a lock, NoLock, ...): recorded as with.enter and as held"""
+        blk = run.memo.get("@held_by_other")
+        if blk and isinstance(cm, Sym) and cm.name.startswith("Lock#") and cm.key() in blk:
+            raise BlockedSig(cm.key())
+        nm = self.describe(run, cm)
+        run.effect("with.enter", (cm,), {"name": C(nm)}, node=node)
+        run.with_stack.append(nm)
+        run.held.append(cm.key())
+        return nm
+
+    def exit_cm(self, run, cm, node):
+        nm = self.describe(run, cm)
+        if run.with_stack:
+            run.with_stack.pop()
+        run.held.remove(cm.key()) if cm.key() in run.held else None
+        run.effect("with.exit", (cm,), {"name": C(nm)}, node=node)
+        # another (modelled) thread that was blocked on this lock runs now
+        for act in run.deferred.pop(cm.key(), []):
+            act()
+
     def st_With(self, run, st, env):
-        names = []
+        from . import hof
+        entered = []
+        suppress = []
         for item in st.items:
             cm = self.eval(run, item.context_expr, env)
-            blk = run.memo.get("@held_by_other")
-            if blk and isinstance(cm, Sym) and cm.name.startswith("Lock#") and cm.key() in blk:
-                raise BlockedSig(cm.key())
-            nm = self.describe(run, cm)
-            names.append((nm, cm))
-            run.effect("with.enter", (cm,), {"name": C(nm)}, node=item.context_expr)
-            run.with_stack.append(nm)
-            run.held.append(cm.key())
+            if hof.is_hof(cm, "contextlib.suppress"):
+                suppress.extend(hof.parts(cm)[1])
+                entered.append(("suppress", cm))
+                bound = NONE
+            elif hof.is_hof(cm, "contextlib.closing"):
+                entered.append(("closing", cm))
+                bound = hof.parts(cm)[1][0]
+            elif hof.is_hof(cm, "contextlib.ExitStack"):
+                entered.append(("exitstack", cm))
+                bound = cm
+            else:
+                self.enter_cm(run, cm, item.context_expr)
+                entered.append(("cm", cm))
+                bound = cm
             if item.optional_vars is not None:
-                self.assign(run, item.optional_vars, cm, env)
+                self.assign(run, item.optional_vars, bound, env)
+
+        def leave():
+            for kind, cm in reversed(entered):
+                if kind == "cm":
+                    self.exit_cm(run, cm, st)
+                elif kind == "closing":
+                    obj = hof.parts(cm)[1][0]
+                    self.call(run, self.getattr(run, obj, "close", st), [], {}, st)
+                elif kind == "exitstack":
+                    hof.unwind_exitstack(self, run, cm, st)
+
         try:
             self.exec_block(run, st.body, env)
+        except RaiseSig as r:
+            leave()
+            entered.clear()
+            if suppress and any(self.exc_matches_value(run, r.exc, c) for c in suppress):
+                return
+            raise
         finally:
-            for nm, cm in reversed(names):
-                run.with_stack.pop()
-                run.held.remove(cm.key()) if cm.key() in run.held else None
-                run.effect("with.exit", (cm,), {"name": C(nm)}, node=st)
-                # another (modelled) thread that was blocked on this lock runs now
-                for act in run.deferred.pop(cm.key(), []):
-                    act()
+            if entered:
+                leave()
+
+    def exc_matches_value(self, run, exc, cls_val) -> bool:
+        """isinstance(exc, cls) for an exception object and a class value (repo class or stdlib name)"""
+        cn = self.exc_class_name(run, exc)
+        target = cls_val.qualname if isinstance(cls_val, Cls) else cls_val.name if isinstance(cls_val, Ext) else None
+        if isinstance(cls_val, Tup):
+            return any(self.exc_matches_value(run, exc, c) for c in cls_val.items)
+        return target is not None and cn is not None and bool(self.is_subclass(run, cn, target))
 
     def st_Try(self, run, st, env):
         try:
